@@ -36,7 +36,8 @@ iff that set is empty, and then the guard of l.614 is false, so `sync_token_stre
 iff that automaton has no accepting state reachable from state 0 by transitions. A generated automaton
 whose prediction can fail has transitions into accepting states, so with tables parol generates the
 path is not taken (and the tie C01/C20 never saw it); with hand-made or corrupted tables passed to the
-public `LLKParser::new` it is: a parse of a non-sentence returns `Ok(())` with the error silently lost.
+public `LLKParser::new` it is: a parse of a non-sentence returns `Ok(())` with the error silently lost —
+CONFIRMED on the real code by `harness/examples/c01e_drain_probe.rs` (tables `exDrainT` below).
 `NoDrain` is exactly "the recovery procedure does not return through l.640-653 / l.729-737". -/
 namespace ParolModel
 
@@ -158,18 +159,23 @@ theorem recovery_verdict_iff (T : LLTables) (o : Opts) (R : Recovery) (hnd : R.N
 -- ---------------------------------------------------------------------------------------------
 -- The finding: the draining exit turns a recorded error into `Ok`.
 
-/-- Hand-made tables for `S: "a" B; B: "b";` in which the automaton of `B` has one transition (on
-    `"b"`) into a NON-accepting state and no accepting state at all — the shape for which
+/-- The tables of `harness/examples/c01e_drain_probe.rs`: those parol generates for
+    `S: "a" B; B: "b" | "c";` (non-terminals `B` = 0, `S` = 1; terminals `"a"` = 5, `"b"` = 6, `"c"` = 7),
+    except that the automaton of `B` is replaced by one with a single transition (on `"b"`) into a
+    NON-accepting state and no accepting state at all — the shape for which
     `Recovery::restore_terminal_strings` returns the empty set. They satisfy `TablesSound`. -/
 def exDrainT : LLTables :=
-  ⟨0, [⟨0, [.n 1, .t 5], false⟩, ⟨1, [.t 6], false⟩], [⟨0, [], 0⟩, ⟨-1, [⟨0, 6, 1, -1⟩], 1⟩]⟩
+  ⟨1, [⟨1, [.n 0, .t 5], false⟩, ⟨0, [.t 6], false⟩, ⟨0, [.t 7], false⟩],
+   [⟨-1, [⟨0, 6, 1, -1⟩], 1⟩, ⟨0, [], 0⟩]⟩
 
 /-- **FINDING (counterexample to the clause for an unrestricted recovery procedure).** Tables `exDrainT`,
-    input `a` (not a sentence: the language is `{a b}`), recovery enabled, and the recovery procedure
-    doing what the code does on its "Can't recover" exit (l.640-653: nothing but draining
+    input `a` (not a sentence: the language is `{a b, a c}`), recovery enabled, and the recovery
+    procedure doing what the code does on its "Can't recover" exit (l.640-653: nothing but draining
     `error_entries` into the returned `Err`): the prediction for `B` fails at end of input, an error
     entry IS recorded (l.559-578), the recovery drains it, the `Err` is dropped at l.475, and the parse
-    ends with `ok` (l.513). The plain run reports the syntax error. -/
+    ends with `ok` (l.513). The plain run, and the run with recovery disabled, report the syntax error.
+    The REAL `LLKParser::parse_into` does exactly this on these tables
+    (`cargo run --example c01e_drain_probe` in `harness/`: `recovery=true input="a": ok`). -/
 theorem recovery_drain_can_succeed :
     TablesSound exDrainT ∧
     (rRun exDrainT ⟨false, true, none⟩ drainRecovery 100 (exToks [5])).res = .ok ∧
@@ -181,6 +187,13 @@ theorem recovery_drain_can_succeed :
   intro hl
   have := (member_iff hm).2 hl
   cases this
+
+-- the other two runs of the probe: `a b` and `a a` end with `UnprocessedInput` instead of the syntax
+-- error (recorded, then drained) that the run with recovery disabled reports at token 1
+example : (rRun exDrainT ⟨false, true, none⟩ drainRecovery 100 (exToks [5, 6])).res = .unprocessed := by decide
+example : (rRun exDrainT ⟨false, true, none⟩ drainRecovery 100 (exToks [5, 5])).res = .unprocessed := by decide
+example : (rRun exDrainT ⟨false, false, none⟩ drainRecovery 100 (exToks [5, 6])).res = .syntax (some 1) := by decide
+example : (rRun exDrainT ⟨false, false, none⟩ drainRecovery 100 (exToks [5, 5])).res = .syntax (some 1) := by decide
 
 /-- The draining oracle is (of course) excluded by `NoDrain`. -/
 theorem drainRecovery_drains : ¬ drainRecovery.NoDrain := by
